@@ -111,7 +111,10 @@ PROPS = {
                 "BOTH paths at coefficient level: rows = exactly the distinct sums of an exponent row of each operand, every coefficient "
                 "= the convolution sum over the pairs adding up to its row (nested loop invariants over symbolic term counts with the "
                 "set of keys seen so far; uint32 key arithmetic with wrap-around), every field written, compiled path only under the "
-                "established preconditions of the assumed cmultiply contract; value = product by bridge B9. square = multiply(x, x). "
+                "established preconditions of the assumed cmultiply contract (handled dtype equal to the field dtype, one-byte code points, at most "
+                "255 indeterminates, C-contiguous target); value = product by bridge B9. multiply with out=target is proved as well: for a target "
+                "that has exactly the fields of the product - whatever its dtype, memory layout and previous content - the target is returned "
+                "and every field holds its convolution sum, nothing of the previous content being read. square = multiply(x, x). "
                 "power with a non-negative integer scalar exponent: invariant out = x**k over the multiply contract, start = constant "
                 "one (B10). Mixed operand kinds, array-valued exponents, compositions and ring laws on concrete operands: bounded "
                 "run-time checks against the exact sparse-polynomial oracle (conc/checks_c01.py).",
@@ -119,7 +122,7 @@ PROPS = {
                                                "assumed contract of the compiled cmultiply (Cython; same specification as the verified fallback loop)",
                                                "numpy axioms: tile/repeat/unique pairing, uint32 arithmetic, unicode views"],
                 assumptions=["B5, B9, B10 (coefficient-level definitions of sum, product and constant)", "A1",
-                             "out=None; kwargs other than where=True pass through to numpy unverified",
+                             "out=None for add/subtract/negative/positive (multiply: also out=target); kwargs other than where=True pass through to numpy unverified",
                              "precondition of multiply: every exponent sum is storable (otherwise the constructor raises, C20)"],
                 not_decided=["array-valued exponents of power, mixed operand kinds (bounded)", "the compiled kernel itself (assumed)"]),
     "C15": dict(level="other", contracts=["numpoly.postprocess_attributes", "numpoly.polynomial_from_attributes", "numpoly.clean_attributes"],
